@@ -49,6 +49,10 @@ def plan(tier):
         CH("pair", "harness.c19", "pair", pair_parts, timeout=t, desc="pair laws", bounds=BOUNDS[tier]["pair"],
            symbolic="selectors only (pool indices)"),
         K("k_boundary", "kjobs.c19", "boundary_eq_hash", "BoundaryType: == implies equal hash keys, symmetric, reflexive (symbolic fields)"),
+        CH("nested", "harness.c19", "nested", [f"0:{k},1:{a}" for k in (2, 5, 7, 10, 11, 12) for a in (1, 2) if not (a == 2 and k in (2, 12))]
+           + [f"0:{k},1:2,2:{j}" for k in (2, 12) for j in range(14)] + [f"0:{k}" for k in (6, 9, 13)], timeout=t,
+           desc="per-term laws for every constructor directly inside every constructor", bounds="depth 2, deep child arity <= 1, leaf pool 3",
+           symbolic="selectors only (pool indices)"),
         CH("cross", "harness.c19", "cross", [f"0:{a}" for a in range(14)], timeout=t,
            desc="symmetry/hash over every ordered pair of distinct constructors (minimal terms)", bounds="14 x 14"),
     ]
